@@ -7,7 +7,7 @@ for f in sorted(glob.glob(V+'/seeded/*/meta.json')):
     m=json.load(open(f)); k=f.split('/')[-2]
     first=(m.get('first_run_before_strengthening') or {}).get('detected')
     q=m['check_runs']['quick']
-    rows.append(dict(k=k, first=first, now=q['detected'], sigs=q['signatures'][:2], need=m.get('needs_to_manifest',''), nd=m.get('not_detected_by_design'), st=m.get('strengthening','-')))
+    rows.append(dict(k=k, first=first, now=q['detected'], sigs=q['signatures'][:2], need=m.get('needs_to_manifest',''), nd=m.get('not_detected_by_design'), st=m.get('strengthening','-'), neut=m.get('neutralised_by')))
 def rnd(k): return (int(k.split('-m')[1])+1)//2
 rounds=sorted(set(rnd(r['k']) for r in rows))
 out=["## 9. Seeded changes: which checks catch what\n",
@@ -18,10 +18,11 @@ for r in rounds:
     out.append("| %d | %d | %d | %d |"%(r,len(rr),sum(1 for x in rr if x['first']),sum(1 for x in rr if x['now'])))
 out.append("")
 out.append("Every miss was an alphabet or driver gap - or, twice, a bug of the harness itself - never a wrong oracle; each was\nclosed by widening a harness or adding one (listed per change below), with zero alarms on the unmodified tree\nafterwards. The one change that is not caught, C05-m4, only manifests on a type that declares an attribute and a\nrelationship of the same name; JSON:API gives the fields of a resource one namespace, so such a type is outside the\ndomain, and on it the unmodified library itself returns the attribute's value for the relationship - it is recorded as\nnot detected by design.\n")
+out.append("Three early changes (C01-m4, C12-m2, C15-m3) relied on schema types keeping nil maps; the repair f7750ef (section 5.1)\nremoved that state, so they no longer break their property on the current tree (their demonstrations now pass with\nthe change applied). They are kept with the result of the last run against the tree on which they were valid\nregressions and marked (*) below.\n")
 out.append("| Change | Caught at first | Caught now | Signature(s) reported now | What it needs to manifest | Strengthening that closed a miss |")
 out.append("|---|---|---|---|---|---|")
 for x in rows:
-    out.append("| %s | %s | %s | %s | %s | %s |"%(x['k'],"yes" if x['first'] else "NO","yes" if x['now'] else "NO (by design)","; ".join("`%s`"%s for s in x['sigs']), x['need'].replace("|","/"), (x['st'] if not x['first'] else "-") if not x['nd'] else "outside the domain, see above"))
+    out.append("| %s | %s | %s | %s | %s | %s |"%(x['k']+(" (*)" if x['neut'] else ""),"yes" if x['first'] else "NO","yes" if x['now'] else "NO (by design)","; ".join("`%s`"%s for s in x['sigs']), x['need'].replace("|","/"), (x['st'] if not x['first'] else "-") if not x['nd'] else "outside the domain, see above"))
 out.append("""
 Lessons folded back into the machinery:
 1. relationship IDs need the same escape-worthy alphabet as attribute strings (control characters, the literal text
